@@ -12,7 +12,7 @@ int g_k, g_s0, g_m0; T v_old;
 
 #define WF (__CPROVER_is_fresh(thesize, sizeof(int)) && __CPROVER_is_fresh(themax, sizeof(int)) \
    && 1 <= *themax && *themax <= CAP && 0 <= *thesize && *thesize <= *themax \
-   && __CPROVER_is_fresh(data, CAP * sizeof(T)) && *themax == CAP && 1.0 <= memFactor && memFactor <= 4.0 \
+   && __CPROVER_is_fresh(data, *themax * sizeof(T)) && 1.0 <= memFactor && memFactor <= 4.0 \
    && g_s0 == *thesize && g_m0 == *themax && g_rr == g_k)
 #define WF_POST (1 <= *themax && 0 <= *thesize && *thesize <= *themax \
    && __CPROVER_rw_ok(__CPROVER_return_value, *themax * sizeof(T)))
